@@ -135,6 +135,15 @@ def classify_value_as_guard(ctx, b, e, taken_true):
     e = strip_refs(e)
     if e.kind == "unop" and e[1] == "Not":
         return classify_value_as_guard(ctx, b, e[2], not taken_true)
+    if e.kind == "binop" and e[1] in ("Eq", "Ne") and (is_const(e[3], 1) or is_const(e[2], 1)):
+        # `counter.fetch_sub(1, ..) == 1`: the atomic countdown just reached 0
+        fs = strip_refs(e[2] if is_const(e[3], 1) else e[3])
+        if fs.kind == "call" and fs[1].startswith("std::sync::atomic::Atomic") and fs[1].endswith("::fetch_sub") and len(fs[2]) >= 2 and is_const(strip_refs(fs[2][1]), 1):
+            srcs = sources_of_expr(ctx, b, strip_refs(fs[2][0]), mode="taint")
+            if any(s.kind == "alloc" and s[4] in NODE_COUNT_FNS for s in srcs):
+                zero = (e[1] == "Eq") == bool(taken_true)
+                return ("FINISHED" if zero else "NONZERO", fmt_expr(fs, b))
+            return ("OTHER", "test of %s" % fmt_expr(fs, b))
     if e.kind == "binop" and e[1] in ("Lt", "Ge") and is_const(e[3], 1):
         # unsigned `x < 1` <=> `x == 0`, `x >= 1` <=> `x != 0`
         e = E(("binop", "Eq" if e[1] == "Lt" else "Ne", e[2], E(("const", "0", "usize"))))
@@ -918,8 +927,8 @@ def T3(ctx, rule="T3", families=None, want_stream=None):
             continue
         for r in s_["roles"]:
             ctx.cover(rule + "." + str(r), b.id)
-        if b.id in checked:
-            continue
+        if b.id in checked or s_.get("lifted"):
+            continue        # (lifted: the receive itself sits in the wrapper's poll_next, a checked poll function)
         awaited = b.kind == "coroutine" and s_["fn"].endswith("::recv") and any(
             a.operand.get("pl", {}).get("l") == s_["t"]["dest"]["l"] for a in awaits(b))
         ctx.check(awaited, rule, "recv-site|%s" % short(b.id), m.where(b, s_["bb"]),
